@@ -112,7 +112,7 @@ func (h *c17EvHooks) build(env *c17Env, c c17Case) (byte, []byte, bool) {
 
 func (h *c17EvHooks) probe(env *c17Env) string {
 	pool := h.pool[env.name]
-	if !c17WithTimeout(3*time.Second, func() { _, _ = pool.PendingEvidence(1000); _ = pool.Size() }) {
+	if !c17WithTimeout(10*time.Second, func() { _, _ = pool.PendingEvidence(1000); _ = pool.Size() }) {
 		return "evidence pool locked"
 	}
 	return "ok"
